@@ -481,24 +481,33 @@ Definition env_step (penv : list (string * string)) (o : op) : list (string * st
 (* the process environment after the operations [pre] *)
 Definition env_at (penv : list (string * string)) (pre : list op) : list (string * string) :=
   fold_left env_step pre penv.
+Definition cls_step (cls : list closure) (o : op) : list closure :=
+  match o with
+  | MkClosure k cmd baked => cls ++ [{| cl_kind := k; cl_cmd := cmd; cl_baked := baked |}]
+  | _ => cls
+  end.
+(* the closures that exist after the operations [pre] *)
+Definition cls_at (cls : list closure) (pre : list op) : list closure := fold_left cls_step pre cls.
 
 Section Hist.
 Variable child_out : list string -> string.
-Variable cls : list closure.
+Variable child_exit : list string -> nat.
 Variable h0 : heap.                       (* the arrays the caller can see: everything that exists before *)
 
 Definition op_ok (o : op) : Prop :=
   match o with
   | SetEnv _ _ => True
+  | MkClosure _ _ b => slice_ok (length h0) b
   | CallClosure _ e => slice_ok (length h0) e
   | CallDirect _ _ _ a => slice_ok (length h0) a
   end.
-Definition cls_ok : Prop := Forall (fun cl => slice_ok (length h0) (cl_baked cl)) cls.
+Definition cls_ok (cls : list closure) : Prop := Forall (fun cl => slice_ok (length h0) (cl_baked cl)) cls.
 
 (* the property sentence: what a call must start, read off the caller's ORIGINAL contents *)
-Definition spec_argv (penv : list (string * string)) (o : op) : list string :=
+Definition spec_argv (cls : list closure) (penv : list (string * string)) (o : op) : list string :=
   match o with
   | SetEnv _ _ => []
+  | MkClosure _ _ _ => []
   | CallClosure c extra =>
       match nth_error cls c with
       | Some cl => map (expand_env penv) (cl_cmd cl :: contents h0 (cl_baked cl) ++ contents h0 extra)
@@ -507,24 +516,30 @@ Definition spec_argv (penv : list (string * string)) (o : op) : list string :=
   | CallDirect f emap cmd args => map (ex_of (if uses_map f then emap else []) penv) (cmd :: contents h0 args)
   end.
 
-Definition spec_obs (penv : list (string * string)) (o : op) : obs :=
+Definition spec_obs (cls : list closure) (penv : list (string * string)) (o : op) : obs :=
   match o with
   | SetEnv _ _ => OSet
+  | MkClosure _ _ _ => OMk
   | CallClosure c _ =>
       match nth_error cls c with
-      | Some cl => OCall (spec_argv penv o) (out_closure child_out (cl_kind cl) (spec_argv penv o))
+      | Some cl => finish_closure child_out child_exit (cl_kind cl) penv (spec_argv cls penv o)
       | None => OBad
       end
-  | CallDirect f _ _ _ => OCall (spec_argv penv o) (out_direct child_out f (spec_argv penv o))
+  | CallDirect f _ _ _ => finish_direct child_out child_exit f penv (spec_argv cls penv o)
   end.
 
-Hypothesis Hcls : cls_ok.
-
-Lemma call_prog_wp : forall penv o p outf, op_ok o ->
-  call_prog child_out true cls penv o = Some (p, outf) ->
-  wp h0 p [] (fun _ argv => argv = spec_argv penv o).
+Lemma cls_ok_step : forall cls o, cls_ok cls -> op_ok o -> cls_ok (cls_step cls o).
 Proof.
-  intros penv o p outf Hok H. destruct o as [k v|c extra|f emap cmd args]; simpl in *.
+  intros cls o Hc Ho. destruct o; simpl; auto.
+  unfold cls_ok. apply Forall_app. split; auto.
+Qed.
+
+Lemma call_prog_wp : forall cls penv o p fin, cls_ok cls -> op_ok o ->
+  call_prog child_out child_exit true cls penv o = Some (p, fin) ->
+  wp h0 p [] (fun _ argv => argv = spec_argv cls penv o).
+Proof.
+  intros cls penv o p fin Hcls Hok H. destruct o as [k v|k cmd b|c extra|f emap cmd args]; simpl in *.
+  - discriminate.
   - discriminate.
   - destruct (nth_error cls c) as [cl|] eqn:E; [|discriminate]. inversion H; subst.
     apply wp_closure_fixed; auto.
@@ -532,66 +547,132 @@ Proof.
   - inversion H; subst. apply wp_direct_fixed; auto.
 Qed.
 
-Lemma step_op_spec : forall penv h o, op_ok o -> firstn (length h0) h = h0 ->
-  fst (fst (step_op child_out true cls penv h o)) = env_step penv o /\
-  snd (step_op child_out true cls penv h o) = spec_obs penv o /\
-  firstn (length h0) (snd (fst (step_op child_out true cls penv h o))) = h0.
+Lemma step_op_spec : forall penv cls h o penv' cls' h' ob, cls_ok cls -> op_ok o -> firstn (length h0) h = h0 ->
+  step_op child_out child_exit true penv cls h o = (penv', cls', h', ob) ->
+  penv' = env_step penv o /\ cls' = cls_step cls o /\ ob = spec_obs cls penv o /\ firstn (length h0) h' = h0.
 Proof.
-  intros penv h o Hok Hpre.
-  assert (Hcall : forall p outf, call_prog child_out true cls penv o = Some (p, outf) ->
-            snd (run_seq p h) = spec_argv penv o /\ firstn (length h0) (fst (run_seq p h)) = h0).
-  { intros p outf Hp. apply (seq_sound h0 p h (fun r => r = spec_argv penv o)); auto.
+  intros penv cls h o penv' cls' h' ob Hcls Hok Hpre Hstep.
+  assert (Hcall : forall p fin, call_prog child_out child_exit true cls penv o = Some (p, fin) ->
+            snd (run_seq p h) = spec_argv cls penv o /\ firstn (length h0) (fst (run_seq p h)) = h0).
+  { intros p fin Hp. apply (seq_sound h0 p h (fun r => r = spec_argv cls penv o)); auto.
     eapply call_prog_wp; eauto. }
-  destruct o as [k v|c extra|f emap cmd args].
-  - simpl; auto.
-  - unfold step_op. simpl env_step.
-    destruct (call_prog child_out true cls penv (CallClosure c extra)) as [[p outf]|] eqn:E.
-    + destruct (Hcall _ _ eq_refl) as (Ha & Hh). destruct (run_seq p h) as [h' argv]; simpl in *.
-      subst argv. split; [auto|split; [|auto]].
+  destruct o as [k v|k cmd b|c extra|f emap cmd args].
+  - simpl in Hstep. inversion Hstep; subst. simpl; auto.
+  - simpl in Hstep. inversion Hstep; subst. simpl; auto.
+  - unfold step_op in Hstep. simpl env_step. simpl cls_step.
+    destruct (call_prog child_out child_exit true cls penv (CallClosure c extra)) as [[p fin]|] eqn:E.
+    + destruct (Hcall _ _ eq_refl) as (Ha & Hh). destruct (run_seq p h) as [h1 argv]; simpl in *.
+      assert (Hp : penv' = penv /\ cls' = cls /\ h' = h1 /\ ob = fin argv) by (inversion Hstep; auto).
+      destruct Hp as (-> & -> & -> & ->). subst argv.
+      split; [auto|split; [auto|split; [|auto]]].
       destruct (nth_error cls c) as [cl|]; [|discriminate]. inversion E; subst. reflexivity.
-    + simpl in *. destruct (nth_error cls c); [discriminate|auto].
-  - unfold step_op. simpl env_step.
-    destruct (call_prog child_out true cls penv (CallDirect f emap cmd args)) as [[p outf]|] eqn:E; [|discriminate].
-    destruct (Hcall _ _ eq_refl) as (Ha & Hh). destruct (run_seq p h) as [h' argv]; simpl in *.
-    subst argv. inversion E; subst. auto.
+    + assert (Hp : penv' = penv /\ cls' = cls /\ h' = h /\ ob = OBad) by (inversion Hstep; auto).
+      destruct Hp as (-> & -> & -> & ->). simpl in *. destruct (nth_error cls c); [discriminate|auto].
+  - unfold step_op in Hstep. simpl env_step. simpl cls_step.
+    destruct (call_prog child_out child_exit true cls penv (CallDirect f emap cmd args)) as [[p fin]|] eqn:E; [|discriminate].
+    destruct (Hcall _ _ eq_refl) as (Ha & Hh). destruct (run_seq p h) as [h1 argv]; simpl in *.
+    assert (Hp : penv' = penv /\ cls' = cls /\ h' = h1 /\ ob = fin argv) by (inversion Hstep; auto).
+    destruct Hp as (-> & -> & -> & ->). subst argv. inversion E; subst. auto.
 Qed.
 
-Lemma history_unchanged : forall ops penv h, firstn (length h0) h = h0 -> Forall op_ok ops ->
-  Forall (fun x => firstn (length h0) (snd x) = h0) (run_history child_out true cls penv h ops).
+Lemma history_unchanged : forall ops penv cls h, cls_ok cls -> firstn (length h0) h = h0 -> Forall op_ok ops ->
+  Forall (fun x => firstn (length h0) (snd x) = h0) (run_history child_out child_exit true penv cls h ops).
 Proof.
-  induction ops as [|o r IH]; intros penv h Hpre Hok; simpl; [constructor|].
+  induction ops as [|o r IH]; intros penv cls h Hcls Hpre Hok; simpl; [constructor|].
   inversion Hok; subst.
-  destruct (step_op_spec penv h o H1 Hpre) as (He & Ho & Hh).
-  destruct (step_op child_out true cls penv h o) as [[penv' h'] ob]; simpl in *.
-  constructor; simpl; auto.
+  destruct (step_op child_out child_exit true penv cls h o) as [[[penv' cls'] h'] ob] eqn:E.
+  destruct (step_op_spec _ _ _ _ _ _ _ _ Hcls H1 Hpre E) as (He & Hc & Ho & Hh).
+  constructor; simpl; auto. subst cls'. apply IH; auto. apply cls_ok_step; auto.
 Qed.
 
-Lemma history_nth : forall pre penv h o post, firstn (length h0) h = h0 -> Forall op_ok (pre ++ o :: post) ->
-  exists h', nth_error (run_history child_out true cls penv h (pre ++ o :: post)) (length pre)
-             = Some (spec_obs (env_at penv pre) o, h') /\ firstn (length h0) h' = h0.
+Lemma history_nth : forall pre penv cls h o post, cls_ok cls -> firstn (length h0) h = h0 -> Forall op_ok (pre ++ o :: post) ->
+  exists h', nth_error (run_history child_out child_exit true penv cls h (pre ++ o :: post)) (length pre)
+             = Some (spec_obs (cls_at cls pre) (env_at penv pre) o, h') /\ firstn (length h0) h' = h0.
 Proof.
-  induction pre as [|x pre IH]; intros penv h o post Hpre Hok; simpl app in *.
+  induction pre as [|x pre IH]; intros penv cls h o post Hcls Hpre Hok; simpl app in *.
   - inversion Hok; subst. simpl.
-    destruct (step_op_spec penv h o H1 Hpre) as (He & Ho & Hh).
-    destruct (step_op child_out true cls penv h o) as [[penv' h'] ob]; simpl in *.
+    destruct (step_op child_out child_exit true penv cls h o) as [[[penv' cls'] h'] ob] eqn:E.
+    destruct (step_op_spec _ _ _ _ _ _ _ _ Hcls H1 Hpre E) as (He & Hc & Ho & Hh).
     exists h'; subst; auto.
   - inversion Hok; subst. simpl.
-    destruct (step_op_spec penv h x H1 Hpre) as (He & Ho & Hh).
-    destruct (step_op child_out true cls penv h x) as [[penv' h'] ob]; simpl in *. subst penv'.
-    apply IH; auto.
+    destruct (step_op child_out child_exit true penv cls h x) as [[[penv' cls'] h'] ob] eqn:E.
+    destruct (step_op_spec _ _ _ _ _ _ _ _ Hcls H1 Hpre E) as (He & Hc & Ho & Hh). subst penv' cls'.
+    apply IH; auto. apply cls_ok_step; auto.
 Qed.
 
 (* two calls at once *)
-Lemma concurrent_calls : forall penv oA oB pA fA pB fB, op_ok oA -> op_ok oB ->
-  call_prog child_out true cls penv oA = Some (pA, fA) ->
-  call_prog child_out true cls penv oB = Some (pB, fB) ->
+Lemma concurrent_calls : forall cls penv oA oB pA fA pB fB, cls_ok cls -> op_ok oA -> op_ok oB ->
+  call_prog child_out child_exit true cls penv oA = Some (pA, fA) ->
+  call_prog child_out child_exit true cls penv oB = Some (pB, fB) ->
   forall h a b hf, firstn (length h0) h = h0 -> par_run pA pB h a b hf ->
-  a = spec_argv penv oA /\ b = spec_argv penv oB /\ firstn (length h0) hf = h0.
+  a = spec_argv cls penv oA /\ b = spec_argv cls penv oB /\ firstn (length h0) hf = h0.
 Proof.
-  intros penv oA oB pA fA pB fB HokA HokB HA HB h a b hf Hpre Hrun.
-  destruct (par_sound _ _ _ _ _ _ Hrun h0 [] [] _ _ (call_prog_wp _ _ _ _ HokA HA) (call_prog_wp _ _ _ _ HokB HB)
+  intros cls penv oA oB pA fA pB fB Hcls HokA HokB HA HB h a b hf Hpre Hrun.
+  destruct (par_sound _ _ _ _ _ _ Hrun h0 [] [] _ _ (call_prog_wp _ _ _ _ _ Hcls HokA HA) (call_prog_wp _ _ _ _ _ Hcls HokB HB)
               (agrees_nil _ _ Hpre)) as (A' & B' & Ha & Hb & Hag & _).
   auto.
+Qed.
+
+(* ---- the statements of Props/C16.v ---- *)
+Lemma thm_inputs_unchanged : forall penv cls ops, cls_ok cls -> Forall op_ok ops ->
+  Forall (fun x => firstn (length h0) (snd x) = h0) (run_history child_out child_exit true penv cls h0 ops).
+Proof. intros. apply history_unchanged; auto. apply firstn_all. Qed.
+
+Lemma thm_closure_is_run : forall penv cls pre c extra post cl,
+  cls_ok cls -> Forall op_ok (pre ++ CallClosure c extra :: post) -> nth_error (cls_at cls pre) c = Some cl ->
+  let env_i := env_at penv pre in
+  let argv := map (expand_env env_i) (cl_cmd cl :: contents h0 (cl_baked cl) ++ contents h0 extra) in
+  exists h', nth_error (run_history child_out child_exit true penv cls h0 (pre ++ CallClosure c extra :: post)) (length pre)
+             = Some (OCall argv
+                           (match cl_kind cl with KRun => None | KOut => Some (trim_nl (child_out argv)) end)
+                           (match cl_kind cl with KRun => if verbose env_i then child_out argv else "" | KOut => "" end)
+                           (child_exit argv), h').
+Proof.
+  intros penv cls pre c extra post cl Hcls Hok Hc env_i argv.
+  destruct (history_nth pre penv cls h0 (CallClosure c extra) post Hcls (firstn_all h0) Hok) as (h' & H & _).
+  exists h'. rewrite H. simpl. rewrite Hc. destruct (cl_kind cl); reflexivity.
+Qed.
+
+Lemma thm_direct_call : forall penv cls pre f emap cmd args post,
+  cls_ok cls -> Forall op_ok (pre ++ CallDirect f emap cmd args :: post) ->
+  let env_i := env_at penv pre in
+  let argv := map (expand (mapping (if uses_map f then emap else []) env_i)) (cmd :: contents h0 args) in
+  exists h', nth_error (run_history child_out child_exit true penv cls h0 (pre ++ CallDirect f emap cmd args :: post)) (length pre)
+             = Some (finish_direct child_out child_exit f env_i argv, h').
+Proof.
+  intros penv cls pre f emap cmd args post Hcls Hok env_i argv.
+  destruct (history_nth pre penv cls h0 (CallDirect f emap cmd args) post Hcls (firstn_all h0) Hok) as (h' & H & _).
+  exists h'. exact H.
+Qed.
+
+Lemma thm_closure_like_direct : forall penv cls pre c extra post post' cl args,
+  cls_ok cls ->
+  Forall op_ok (pre ++ CallClosure c extra :: post) ->
+  Forall op_ok (pre ++ CallDirect (match cl_kind cl with KRun => FRun | KOut => FOutput end) [] (cl_cmd cl) args :: post') ->
+  nth_error (cls_at cls pre) c = Some cl ->
+  contents h0 args = contents h0 (cl_baked cl) ++ contents h0 extra ->
+  option_map fst (nth_error (run_history child_out child_exit true penv cls h0 (pre ++ CallClosure c extra :: post)) (length pre)) =
+  option_map fst (nth_error (run_history child_out child_exit true penv cls h0
+       (pre ++ CallDirect (match cl_kind cl with KRun => FRun | KOut => FOutput end) [] (cl_cmd cl) args :: post')) (length pre)).
+Proof.
+  intros penv cls pre c extra post post' cl args Hcls H1 H2 Hc Hcont.
+  destruct (history_nth pre penv cls h0 _ post Hcls (firstn_all h0) H1) as (h1 & E1 & _).
+  destruct (history_nth pre penv cls h0 _ post' Hcls (firstn_all h0) H2) as (h2 & E2 & _).
+  rewrite E1, E2. simpl. rewrite Hc, Hcont. destruct (cl_kind cl); reflexivity.
+Qed.
+
+Lemma thm_concurrent_schedules : forall cls penv oA oB pA fA pB fB sched,
+  cls_ok cls -> op_ok oA -> op_ok oB ->
+  call_prog child_out child_exit true cls penv oA = Some (pA, fA) ->
+  call_prog child_out child_exit true cls penv oB = Some (pB, fB) ->
+  par_exec sched pA pB h0 =
+    (spec_argv cls penv oA, spec_argv cls penv oB, snd (par_exec sched pA pB h0)) /\
+  firstn (length h0) (snd (par_exec sched pA pB h0)) = h0.
+Proof.
+  intros cls penv oA oB pA fA pB fB sched Hcls HA HB EA EB.
+  destruct (concurrent_calls cls penv oA oB pA fA pB fB Hcls HA HB EA EB h0 _ _ _ (firstn_all h0)
+              (par_exec_sound sched pA pB h0)) as (Ha & Hb & Hh).
+  split; auto. destruct (par_exec sched pA pB h0) as [[a b] hf]; simpl in *. subst; reflexivity.
 Qed.
 End Hist.
 
@@ -599,185 +680,90 @@ End Hist.
 Definition sl (id off len cap : nat) : slice := {| s_id := id; s_off := off; s_len := len; s_cap := cap |}.
 
 (* 1. a closure called without extra arguments overwrites its baked-in "$V" with the first expansion *)
-Definition w1_cls : list closure := [ {| cl_kind := KOut; cl_cmd := "echo"; cl_baked := sl 0 0 1 1 |} ].
 Definition w1_h0 : heap := [ ["$V"] ].
 Definition w1_env : list (string * string) := [("V", "one")].
-Definition w1_pre : list op := [CallClosure 0 nil_slice; SetEnv "V" "two"].
+Definition w1_pre : list op := [MkClosure KOut "echo" (sl 0 0 1 1); CallClosure 0 nil_slice; SetEnv "V" "two"].
 
-Lemma w1_refuted : forall child_out,
-  cls_ok w1_cls w1_h0 /\ Forall (op_ok w1_h0) (w1_pre ++ [CallClosure 0 nil_slice]) /\
-  exists h', nth_error (run_history child_out false w1_cls w1_env w1_h0 (w1_pre ++ [CallClosure 0 nil_slice])) (length w1_pre)
-             = Some (OCall ["echo"; "one"] (Some (trim_nl (child_out ["echo"; "one"]))), h') /\
-  spec_argv w1_cls w1_h0 (env_at w1_env w1_pre) (CallClosure 0 nil_slice) = ["echo"; "two"] /\
-  firstn (length w1_h0) h' <> w1_h0.
+Lemma thm_closure_is_run_before_repair_refuted : forall child_out child_exit,
+  exists h0 penv pre c extra post,
+    Forall (op_ok h0) (pre ++ CallClosure c extra :: post) /\
+    exists ob h', nth_error (run_history child_out child_exit false penv [] h0 (pre ++ CallClosure c extra :: post)) (length pre) = Some (ob, h') /\
+                  ob = OCall ["echo"; "one"] (Some (trim_nl (child_out ["echo"; "one"]))) "" (child_exit ["echo"; "one"]) /\
+                  spec_argv h0 (cls_at [] pre) (env_at penv pre) (CallClosure c extra) = ["echo"; "two"] /\
+                  firstn (length h0) h' <> h0.
 Proof.
-  intros child_out. split; [|split].
-  - repeat constructor.
-  - repeat constructor.
-  - eexists. split; [vm_compute; reflexivity|]. split; [vm_compute; reflexivity|]. vm_compute. discriminate.
+  intros child_out child_exit.
+  exists w1_h0, w1_env, w1_pre, 0, nil_slice, []. split; [repeat constructor|].
+  eexists; eexists. split; [vm_compute; reflexivity|]. split; [reflexivity|]. split; [vm_compute; reflexivity|]. vm_compute. discriminate.
 Qed.
 
 (* 2. sh.Output rewrites the caller's slice *)
 Definition w2_h0 : heap := [ ["-n"; "$V"; "tail"] ].
 Definition w2_ops : list op := [CallDirect FOutput [] "echo" (sl 0 0 2 3)].
 
-Lemma w2_refuted : forall child_out,
-  Forall (op_ok w2_h0) w2_ops /\
-  exists ob h', In (ob, h') (run_history child_out false [] w1_env w2_h0 w2_ops) /\
-                firstn (length w2_h0) h' = [ ["-n"; "one"; "tail"] ].
+Lemma thm_inputs_unchanged_before_repair_refuted : forall child_out child_exit,
+  exists h0 penv ops, Forall (op_ok h0) ops /\
+    exists ob h', In (ob, h') (run_history child_out child_exit false penv [] h0 ops) /\ firstn (length h0) h' <> h0.
 Proof.
-  intros child_out. split; [repeat constructor|].
-  eexists; eexists; split; [left; vm_compute; reflexivity|reflexivity].
+  intros child_out child_exit.
+  exists w2_h0, w1_env, w2_ops. split; [repeat constructor|].
+  eexists; eexists. split; [left; vm_compute; reflexivity|]. vm_compute. discriminate.
 Qed.
 
 (* 3. two overlapping calls of a closure whose baked-in slice has spare capacity *)
-Definition w3_cls : list closure := [ {| cl_kind := KRun; cl_cmd := "echo"; cl_baked := sl 0 0 1 2 |} ].
+Definition w3_cl : closure := {| cl_kind := KRun; cl_cmd := "echo"; cl_baked := sl 0 0 1 2 |}.
+Definition w3_cls : list closure := [ w3_cl ].
 Definition w3_h0 : heap := [ ["x"; ""]; ["a"]; ["b"] ].
 Definition w3_A : op := CallClosure 0 (sl 1 0 1 1).
 Definition w3_B : op := CallClosure 0 (sl 2 0 1 1).
 Definition w3_sched : list bool := [true; true; false; false].   (* A stores "a" behind "x", then B stores "b" there *)
 
-Lemma w3_refuted : forall child_out,
-  cls_ok w3_cls w3_h0 /\ op_ok w3_h0 w3_A /\ op_ok w3_h0 w3_B /\
-  exists pA fA pB fB a b hf,
-    call_prog child_out false w3_cls [] w3_A = Some (pA, fA) /\
-    call_prog child_out false w3_cls [] w3_B = Some (pB, fB) /\
-    par_run pA pB w3_h0 a b hf /\
-    a = ["echo"; "x"; "b"] /\ spec_argv w3_cls w3_h0 [] w3_A = ["echo"; "x"; "a"] /\
-    firstn (length w3_h0) hf <> w3_h0.
+Lemma thm_concurrent_before_repair_refuted : forall child_out child_exit,
+  exists cls h0 penv oA oB pA fA pB fB a b hf,
+    cls_ok h0 cls /\ op_ok h0 oA /\ op_ok h0 oB /\
+    call_prog child_out child_exit false cls penv oA = Some (pA, fA) /\
+    call_prog child_out child_exit false cls penv oB = Some (pB, fB) /\
+    par_run pA pB h0 a b hf /\
+    a <> spec_argv h0 cls penv oA /\ firstn (length h0) hf <> h0.
 Proof.
-  intros child_out. split; [repeat constructor|split; [repeat constructor|split; [repeat constructor|]]].
-  do 4 eexists.
-  pose proof (par_exec_sound w3_sched (closure_call false (hd {| cl_kind := KRun; cl_cmd := ""; cl_baked := nil_slice |} w3_cls) [] (sl 1 0 1 1))
-                (closure_call false (hd {| cl_kind := KRun; cl_cmd := ""; cl_baked := nil_slice |} w3_cls) [] (sl 2 0 1 1)) w3_h0) as H.
-  do 3 eexists. split; [reflexivity|split; [reflexivity|split; [exact H|]]].
-  split; [vm_compute; reflexivity|split; [vm_compute; reflexivity|vm_compute; discriminate]].
+  intros child_out child_exit.
+  pose proof (par_exec_sound w3_sched (closure_call false w3_cl [] (sl 1 0 1 1)) (closure_call false w3_cl [] (sl 2 0 1 1)) w3_h0) as H.
+  exists w3_cls, w3_h0, [], w3_A, w3_B. do 7 eexists.
+  split; [repeat constructor|split; [repeat constructor|split; [repeat constructor|]]].
+  split; [reflexivity|split; [reflexivity|split; [exact H|]]].
+  split; vm_compute; discriminate.
 Qed.
 
 (* ------------------------------------------------------------------ non-vacuity (current code) *)
-Definition nv_cls : list closure := [ {| cl_kind := KOut; cl_cmd := "$C"; cl_baked := sl 0 1 2 3 |} ].
-Definition nv_h0 : heap := [ ["pad"; "-n"; "$V"; "spare"]; ["${V}x"; "y"; "z"] ].
+Definition nv_h0 : heap := [ ["pad"; "-n"; "$V"; "spare"]; ["${V}x"; "y"; "--exit=3"] ].
 Definition nv_env : list (string * string) := [("C", "echo"); ("V", "one")].
+(* a RunCmd closure made while not verbose and called while verbose; an OutCmd closure whose child fails
+   (prints, exits 3) and is then called again: the second text is its own *)
 Definition nv_ops : list op :=
-  [CallClosure 0 nil_slice; SetEnv "V" "two"; CallClosure 0 (sl 1 0 2 3); CallDirect FOutput [] "echo" (sl 0 1 2 3);
-   CallDirect FRunWith [("V", "m")] "$C" (sl 1 0 1 1)].
-Definition nv_out (argv : list string) : string := String.concat " " (tl argv) ++ String (ascii_of_nat 10) EmptyString.
+  [MkClosure KOut "$C" (sl 0 1 2 3); MkClosure KRun "$C" (sl 0 1 1 1);
+   CallClosure 0 nil_slice; SetEnv "V" "two"; CallClosure 0 (sl 1 0 3 3); CallClosure 0 (sl 1 0 2 3);
+   CallClosure 1 nil_slice; SetEnv "MAGEFILE_VERBOSE" "1"; CallClosure 1 nil_slice;
+   CallDirect FOutput [] "echo" (sl 0 1 2 3); CallDirect FRunWith [("V", "m")] "$C" (sl 1 0 1 1)].
+Definition nl : string := String (ascii_of_nat 10) EmptyString.
+Definition nv_out (argv : list string) : string := String.concat " " (tl argv) ++ nl.
+Definition nv_exit (argv : list string) : nat := if existsb (String.eqb "--exit=3") argv then 3 else 0.
 
 Lemma nonvacuous_c16 :
-  cls_ok nv_cls nv_h0 /\ Forall (op_ok nv_h0) nv_ops /\
-  map fst (run_history nv_out true nv_cls nv_env nv_h0 nv_ops) =
-    [OCall ["echo"; "-n"; "one"] (Some "-n one"); OSet; OCall ["echo"; "-n"; "two"; "twox"; "y"] (Some "-n two twox y");
-     OCall ["echo"; "-n"; "two"] (Some "-n two"); OCall ["echo"; "mx"] None] /\
-  Forall (fun x => firstn 2 (snd x) = nv_h0) (run_history nv_out true nv_cls nv_env nv_h0 nv_ops) /\
+  Forall (op_ok nv_h0) nv_ops /\
+  map fst (run_history nv_out nv_exit true nv_env [] nv_h0 nv_ops) =
+    [OMk; OMk; OCall ["echo"; "-n"; "one"] (Some "-n one") "" 0; OSet;
+     OCall ["echo"; "-n"; "two"; "twox"; "y"; "--exit=3"] (Some "-n two twox y --exit=3") "" 3;
+     OCall ["echo"; "-n"; "two"; "twox"; "y"] (Some "-n two twox y") "" 0;
+     OCall ["echo"; "-n"] None "" 0; OSet; OCall ["echo"; "-n"] None ("-n" ++ nl) 0;
+     OCall ["echo"; "-n"; "two"] (Some "-n two") "" 0; OCall ["echo"; "mx"] None ("mx" ++ nl) 0] /\
+  Forall (fun x => firstn 2 (snd x) = nv_h0) (run_history nv_out nv_exit true nv_env [] nv_h0 nv_ops) /\
   (* the interleaving that breaks the old code leaves the current code unimpressed *)
-  par_exec w3_sched (closure_call true (hd {| cl_kind := KRun; cl_cmd := ""; cl_baked := nil_slice |} w3_cls) [] (sl 1 0 1 1))
-                    (closure_call true (hd {| cl_kind := KRun; cl_cmd := ""; cl_baked := nil_slice |} w3_cls) [] (sl 2 0 1 1)) w3_h0
+  par_exec w3_sched (closure_call true w3_cl [] (sl 1 0 1 1)) (closure_call true w3_cl [] (sl 2 0 1 1)) w3_h0
   = (["echo"; "x"; "a"], ["echo"; "x"; "b"], w3_h0 ++ [["x"; "a"]; ["x"; "b"]; ["x"; "a"]; ["x"; "b"]]).
 Proof.
-  split; [repeat constructor|split; [repeat constructor|split; [vm_compute; reflexivity|split]]].
+  split; [repeat constructor|split; [vm_compute; reflexivity|split]].
   - vm_compute. repeat constructor.
   - vm_compute. reflexivity.
-Qed.
-
-(* ------------------------------------------------------------------ the statements of Props/C16.v, proved *)
-Section Stmts.
-Variable child_out : list string -> string.
-Variable cls : list closure.
-Variable h0 : heap.
-Hypothesis closures_in_heap : cls_ok cls h0.
-
-Lemma thm_inputs_unchanged : forall penv ops, Forall (op_ok h0) ops ->
-  Forall (fun x => firstn (length h0) (snd x) = h0) (run_history child_out true cls penv h0 ops).
-Proof. intros penv ops. apply (history_unchanged child_out cls h0 closures_in_heap ops penv h0). apply firstn_all. Qed.
-
-Lemma thm_closure_is_run : forall penv pre c extra post cl,
-  Forall (op_ok h0) (pre ++ CallClosure c extra :: post) -> nth_error cls c = Some cl ->
-  let env_i := env_at penv pre in
-  let argv := map (expand_env env_i) (cl_cmd cl :: contents h0 (cl_baked cl) ++ contents h0 extra) in
-  exists h', nth_error (run_history child_out true cls penv h0 (pre ++ CallClosure c extra :: post)) (length pre)
-             = Some (OCall argv (match cl_kind cl with KRun => None | KOut => Some (trim_nl (child_out argv)) end), h').
-Proof.
-  intros penv pre c extra post cl Hok Hc env_i argv.
-  destruct (history_nth child_out cls h0 closures_in_heap pre penv h0 (CallClosure c extra) post (firstn_all h0) Hok) as (h' & H & _).
-  exists h'. rewrite H. simpl. rewrite Hc. reflexivity.
-Qed.
-
-Lemma thm_direct_call : forall penv pre f emap cmd args post,
-  Forall (op_ok h0) (pre ++ CallDirect f emap cmd args :: post) ->
-  let env_i := env_at penv pre in
-  let argv := map (expand (mapping (if uses_map f then emap else []) env_i)) (cmd :: contents h0 args) in
-  exists h', nth_error (run_history child_out true cls penv h0 (pre ++ CallDirect f emap cmd args :: post)) (length pre)
-             = Some (OCall argv (out_direct child_out f argv), h').
-Proof.
-  intros penv pre f emap cmd args post Hok env_i argv.
-  destruct (history_nth child_out cls h0 closures_in_heap pre penv h0 (CallDirect f emap cmd args) post (firstn_all h0) Hok) as (h' & H & _).
-  exists h'. exact H.
-Qed.
-
-Lemma thm_closure_like_direct : forall penv pre c extra post post' cl args,
-  Forall (op_ok h0) (pre ++ CallClosure c extra :: post) ->
-  Forall (op_ok h0) (pre ++ CallDirect (match cl_kind cl with KRun => FRun | KOut => FOutput end) [] (cl_cmd cl) args :: post') ->
-  nth_error cls c = Some cl ->
-  contents h0 args = contents h0 (cl_baked cl) ++ contents h0 extra ->
-  option_map fst (nth_error (run_history child_out true cls penv h0 (pre ++ CallClosure c extra :: post)) (length pre)) =
-  option_map fst (nth_error (run_history child_out true cls penv h0
-       (pre ++ CallDirect (match cl_kind cl with KRun => FRun | KOut => FOutput end) [] (cl_cmd cl) args :: post')) (length pre)).
-Proof.
-  intros penv pre c extra post post' cl args H1 H2 Hc Hcont.
-  destruct (history_nth child_out cls h0 closures_in_heap pre penv h0 _ post (firstn_all h0) H1) as (h1 & E1 & _).
-  destruct (history_nth child_out cls h0 closures_in_heap pre penv h0 _ post' (firstn_all h0) H2) as (h2 & E2 & _).
-  rewrite E1, E2. simpl. rewrite Hc, Hcont. destruct (cl_kind cl); reflexivity.
-Qed.
-
-Lemma thm_concurrent_schedules : forall penv oA oB pA fA pB fB sched,
-  op_ok h0 oA -> op_ok h0 oB ->
-  call_prog child_out true cls penv oA = Some (pA, fA) ->
-  call_prog child_out true cls penv oB = Some (pB, fB) ->
-  par_exec sched pA pB h0 =
-    (spec_argv cls h0 penv oA, spec_argv cls h0 penv oB, snd (par_exec sched pA pB h0)) /\
-  firstn (length h0) (snd (par_exec sched pA pB h0)) = h0.
-Proof.
-  intros penv oA oB pA fA pB fB sched HA HB EA EB.
-  destruct (concurrent_calls child_out cls h0 closures_in_heap penv oA oB pA fA pB fB HA HB EA EB h0 _ _ _ (firstn_all h0)
-              (par_exec_sound sched pA pB h0)) as (Ha & Hb & Hh).
-  split; auto. destruct (par_exec sched pA pB h0) as [[a b] hf]; simpl in *. subst; reflexivity.
-Qed.
-
-End Stmts.
-
-Lemma thm_closure_is_run_before_repair_refuted : forall child_out,
-  exists cls h0 penv pre c extra post,
-    cls_ok cls h0 /\ Forall (op_ok h0) (pre ++ CallClosure c extra :: post) /\
-    exists ob h', nth_error (run_history child_out false cls penv h0 (pre ++ CallClosure c extra :: post)) (length pre) = Some (ob, h') /\
-                  ob = OCall ["echo"; "one"] (Some (trim_nl (child_out ["echo"; "one"]))) /\
-                  spec_argv cls h0 (env_at penv pre) (CallClosure c extra) = ["echo"; "two"] /\
-                  firstn (length h0) h' <> h0.
-Proof.
-  intros child_out. destruct (w1_refuted child_out) as (H1 & H2 & h' & H3 & H4 & H5).
-  exists w1_cls, w1_h0, w1_env, w1_pre, 0, nil_slice, []. split; [exact H1|split; [exact H2|]].
-  eexists; exists h'. split; [exact H3|split; [reflexivity|split; [exact H4|exact H5]]].
-Qed.
-
-Lemma thm_inputs_unchanged_before_repair_refuted : forall child_out,
-  exists h0 penv ops, Forall (op_ok h0) ops /\
-    exists ob h', In (ob, h') (run_history child_out false [] penv h0 ops) /\ firstn (length h0) h' <> h0.
-Proof.
-  intros child_out. destruct (w2_refuted child_out) as (H1 & ob & h' & H2 & H3).
-  exists w2_h0, w1_env, w2_ops. split; [exact H1|]. exists ob, h'. split; [exact H2|]. rewrite H3. discriminate.
-Qed.
-
-Lemma thm_concurrent_before_repair_refuted : forall child_out,
-  exists cls h0 penv oA oB pA fA pB fB a b hf,
-    cls_ok cls h0 /\ op_ok h0 oA /\ op_ok h0 oB /\
-    call_prog child_out false cls penv oA = Some (pA, fA) /\
-    call_prog child_out false cls penv oB = Some (pB, fB) /\
-    par_run pA pB h0 a b hf /\
-    a <> spec_argv cls h0 penv oA /\ firstn (length h0) hf <> h0.
-Proof.
-  intros child_out.
-  destruct (w3_refuted child_out) as (H1 & H2 & H3 & pA & fA & pB & fB & a & b & hf & E1 & E2 & Hr & Ha & Hs & Hh).
-  exists w3_cls, w3_h0, [], w3_A, w3_B, pA, fA, pB, fB, a, b, hf.
-  repeat (split; [assumption|]). split; [|exact Hh]. rewrite Ha, Hs. discriminate.
 Qed.
 
 (* ------------------------------------------------------------------ overlapped calls are among the interleavings *)
@@ -785,8 +771,6 @@ Qed.
    actions while the first call is in flight (started, not finished), and from there both run to their ends
    with their own arguments.  (The model has no lock: a closure that made its calls take turns would
    not be this model - the harness requires all children of concurrent calls to be alive together.) *)
-Definition w3_cl : closure := {| cl_kind := KRun; cl_cmd := "echo"; cl_baked := sl 0 0 1 2 |}.
-
 Lemma overlap_admitted :
   let pA := closure_call true w3_cl [] (sl 1 0 1 1) in
   let pB := closure_call true w3_cl [] (sl 2 0 1 1) in
